@@ -13,6 +13,7 @@ use crate::ParserOptions;
 
 const BLOCK_VALID_CHAIN: u64 = 4;
 const BLOCK_HAVE_DATA: u64 = 8;
+const BLOCK_FAILED_MASK: u64 = 32 | 64; // BLOCK_FAILED_VALID | BLOCK_FAILED_CHILD
 
 /// Holds the index of longest valid chain
 pub struct ChainIndex {
@@ -141,7 +142,9 @@ pub fn get_block_index(path: &Path) -> Result<HashMap<u64, BlockIndexRecord>> {
         db_iter.current(&mut key, &mut value);
         if is_block_index_record(&key) {
             let record = BlockIndexRecord::from(&key[1..], &value)?;
-            if record.status & (BLOCK_VALID_CHAIN | BLOCK_HAVE_DATA) > 0 {
+            if record.status & (BLOCK_VALID_CHAIN | BLOCK_HAVE_DATA) > 0
+                && record.status & BLOCK_FAILED_MASK == 0
+            {
                 block_index.insert(record.height, record);
             }
         }
